@@ -172,4 +172,187 @@ theorem shrink_gen (base conv : U32) (hasP : U32 → Prop) (k : Kcp) (n : Nat) (
   · show _ ≤ o base (match k.snd_buf.drop (n + n2) with | s :: _ => s.sn | [] => k.snd_nxt)
     rw [hsu]; omega
 
+/-! ### one arbitrary genuine frame from the receiver, at the sender -/
+
+/-- the sender's send side is consistent with what the receiver has (`hasP`) -/
+structure SndOk (base conv : U32) (hasP : U32 → Prop) (k : Kcp) : Prop where
+  con : Contig base k
+  tag : BufTagged conv k.snd_buf
+  akd : ∀ x ∈ k.snd_buf, x.acked = true → hasP x.sn
+  rel : ∀ sn, o base sn < o base k.snd_una → hasP sn
+
+/-- what the parse loop may change at the sender -/
+def SndShape (k k' : Kcp) : Prop :=
+  ∃ rw sb su pr, k' = { k with rmt_wnd := rw, snd_buf := sb, snd_una := su, probe := pr }
+
+theorem SndShape.refl (k : Kcp) : SndShape k k := ⟨k.rmt_wnd, k.snd_buf, k.snd_una, k.probe, rfl⟩
+
+theorem SndShape.trans {a b c : Kcp} (h1 : SndShape a b) (h2 : SndShape b c) : SndShape a c := by
+  obtain ⟨r1, s1, u1, p1, e1⟩ := h1
+  obtain ⟨r2, s2, u2, p2, e2⟩ := h2
+  exact ⟨r2, s2, u2, p2, by rw [e2, e1]⟩
+
+theorem Contig.mem {base : U32} {k : Kcp} (hc : Contig base k) {x : Seg} (hx : x ∈ k.snd_buf) :
+    o base k.snd_una ≤ o base x.sn ∧ o base x.sn < o base k.snd_nxt := by
+  have hm : o base x.sn ∈ k.snd_buf.map (fun x => o base x.sn) := List.mem_map.mpr ⟨x, hx, rfl⟩
+  rw [hc.1] at hm
+  have := List.mem_range'_1.mp hm
+  have := hc.2
+  omega
+
+theorem unaCount_take (u : U32) : ∀ (l : List Seg), ∀ x ∈ l.take (unaCount u l), itimediff u x.sn > 0 := by
+  intro l
+  induction l with
+  | nil => intro x hx; simp at hx
+  | cons s r ih =>
+    intro x hx
+    unfold unaCount at hx
+    split at hx
+    · rename_i h
+      simp only [List.take_succ_cons, List.mem_cons] at hx
+      rcases hx with rfl | hx
+      · exact h
+      · exact ih x hx
+    · simp at hx
+
+theorem unaCount_le' (u : U32) : ∀ (l : List Seg), unaCount u l ≤ l.length := by
+  intro l
+  induction l with
+  | nil => simp [unaCount]
+  | cons s r ih => unfold unaCount; split <;> simp <;> omega
+
+/-- marking does not disturb the consistency, provided the marked number is one the receiver has -/
+theorem SndOk.mark {base conv : U32} {hasP : U32 → Prop} {k : Kcp} (h : SndOk base conv hasP k) {sn : U32} {b : List Seg}
+    (hm : MarkRel sn k.snd_buf b) (hs : hasP sn) : SndOk base conv hasP { k with snd_buf := b } := by
+  obtain ⟨f1, f2⟩ := hm.facts
+  have hmap : b.map (fun x => o base x.sn) = k.snd_buf.map (fun x => o base x.sn) := by
+    have := congrArg (List.map (o base)) f1
+    simpa [List.map_map, Function.comp_def] using this
+  have hlen : b.length = k.snd_buf.length := by
+    have := congrArg List.length f1
+    simpa using this
+  refine ⟨⟨?_, ?_⟩, ?_, ?_, h.rel⟩
+  · show b.map _ = List.range' (o base k.snd_una) b.length
+    rw [hmap, hlen]; exact h.con.1
+  · show o base k.snd_una + b.length = o base k.snd_nxt
+    rw [hlen]; exact h.con.2
+  · intro x' hx'
+    obtain ⟨x, hx, e1, e2, e3, _⟩ := f2 x' hx'
+    rw [e2, e3]; exact h.tag x hx
+  · intro x' hx' ha
+    obtain ⟨x, hx, e1, _, _, e4⟩ := f2 x' hx'
+    rcases e4 ha with h1 | h1
+    · rw [e1]; exact h.akd x hx h1
+    · rw [e1, h1]; exact hs
+
+theorem SndOk.shrink {base conv : U32} {hasP : U32 → Prop} {k : Kcp} (h : SndOk base conv hasP k)
+    (hN : o base k.snd_nxt < 2 ^ 31) (n : Nat) (hn : n ≤ k.snd_buf.length) (hpre : ∀ x ∈ k.snd_buf.take n, hasP x.sn) :
+    SndOk base conv hasP (shrinkBuf { k with snd_buf := k.snd_buf.drop n }) ∧
+    o base k.snd_una ≤ o base (shrinkBuf { k with snd_buf := k.snd_buf.drop n }).snd_una ∧
+    SndShape k (shrinkBuf { k with snd_buf := k.snd_buf.drop n }) := by
+  obtain ⟨a1, a2, a3, a4, a5, sb, su, a6⟩ := shrink_gen base conv hasP k n hn h.con hN h.tag h.akd h.rel hpre
+  exact ⟨⟨a1, a2, fun x hx ha => h.akd x (a3 x hx) ha, a4⟩, a5, ⟨k.rmt_wnd, sb, su, k.probe, a6⟩⟩
+
+/-- **an arbitrary genuine ACK / WASK / WINS frame at the sender** (repaired model) -/
+theorem inFr_snd_gen (base conv : U32) (hasP : U32 → Prop) (st : InLoop) (fr : Frm)
+    (h : SndOk base conv hasP st.k) (hN : o base st.k.snd_nxt < 2 ^ 31)
+    (hcmd : fr.cmd.toNat = IKCP_CMD_ACK ∨ fr.cmd.toNat = IKCP_CMD_WASK ∨ fr.cmd.toNat = IKCP_CMD_WINS)
+    (hu : o base fr.una < 2 ^ 31) (huna : ∀ sn, o base sn < o base fr.una → hasP sn)
+    (hack : fr.cmd.toNat = IKCP_CMD_ACK → hasP fr.sn) :
+    SndOk base conv hasP (inFr true st fr).k ∧ SndShape st.k (inFr true st fr).k ∧
+    o base st.k.snd_una ≤ o base (inFr true st fr).k.snd_una ∧
+    (inFr true st fr).panic = st.panic ∧ (inFr true st fr).ret = st.ret := by
+  -- the prologue: window, parse_una, shrink_buf
+  have hK1 : SndOk base conv hasP { st.k with rmt_wnd := fr.wnd.setWidth 32 } := ⟨h.con, h.tag, h.akd, h.rel⟩
+  have hpre : ∀ x ∈ st.k.snd_buf.take (unaCount fr.una st.k.snd_buf), hasP x.sn := by
+    intro x hx
+    have h1 := unaCount_take fr.una st.k.snd_buf x hx
+    have h2 := h.con.mem (List.mem_of_mem_take hx)
+    have := itd base fr.una x.sn hu (by omega)
+    exact huna x.sn (by omega)
+  obtain ⟨p1, p2, p3⟩ := hK1.shrink hN (unaCount fr.una st.k.snd_buf) (unaCount_le' _ _) hpre
+  have hP : inPre true fr.wnd fr.una st.k =
+      shrinkBuf { ({ st.k with rmt_wnd := fr.wnd.setWidth 32 } : Kcp) with
+        snd_buf := st.k.snd_buf.drop (unaCount fr.una st.k.snd_buf) } := rfl
+  rw [← hP] at p1 p2 p3
+  have p2 : o base st.k.snd_una ≤ o base (inPre true fr.wnd fr.una st.k).snd_una := p2
+  have hshape0 : SndShape st.k (inPre true fr.wnd fr.una st.k) := by
+    obtain ⟨r, sb, su, pr, e⟩ := p3
+    exact ⟨r, sb, su, pr, by rw [e]⟩
+  have hNP : o base (inPre true fr.wnd fr.una st.k).snd_nxt < 2 ^ 31 := by
+    obtain ⟨r, sb, su, pr, e⟩ := hshape0
+    rw [e]; exact hN
+  have hpr : (inFr true st fr).panic = st.panic ∧ (inFr true st fr).ret = st.ret := by
+    unfold inFr
+    rw [inStep_eq]
+    by_cases hA : fr.cmd.toNat = IKCP_CMD_ACK
+    · rw [if_pos hA]; exact ⟨rfl, rfl⟩
+    · rw [if_neg hA]
+      have hP' : ¬ fr.cmd.toNat = IKCP_CMD_PUSH := by
+        unfold IKCP_CMD_PUSH; unfold IKCP_CMD_ACK IKCP_CMD_WASK IKCP_CMD_WINS at hcmd; omega
+      rw [if_neg hP']
+      split <;> exact ⟨rfl, rfl⟩
+  have hk : (inFr true st fr).k =
+      if fr.cmd.toNat = IKCP_CMD_ACK then
+        (parseFastack (shrinkBuf (parseAck (inPre true fr.wnd fr.una st.k) fr.sn)) fr.sn fr.ts).1
+      else if fr.cmd.toNat = IKCP_CMD_WASK then
+        { inPre true fr.wnd fr.una st.k with probe := (inPre true fr.wnd fr.una st.k).probe ||| u32 IKCP_ASK_TELL }
+      else inPre true fr.wnd fr.una st.k := by
+    unfold inFr
+    rw [inStep_k]
+    by_cases hA : fr.cmd.toNat = IKCP_CMD_ACK
+    · rw [if_pos hA, if_pos hA]
+    · have hP' : ¬ fr.cmd.toNat = IKCP_CMD_PUSH := by
+        unfold IKCP_CMD_PUSH; unfold IKCP_CMD_ACK IKCP_CMD_WASK IKCP_CMD_WINS at hcmd; omega
+      rw [if_neg hA, if_neg hP', if_neg hA]
+  rw [hk]
+  generalize inPre true fr.wnd fr.una st.k = P at p1 p2 hshape0 hNP
+  by_cases hA : fr.cmd.toNat = IKCP_CMD_ACK
+  · rw [if_pos hA]
+    obtain ⟨b, eb, mb⟩ := parseAck_rel P fr.sn
+    have q1 : SndOk base conv hasP { P with snd_buf := b } := p1.mark mb (hack hA)
+    have hNb : o base ({ P with snd_buf := b } : Kcp).snd_nxt < 2 ^ 31 := hNP
+    obtain ⟨s1, s2, s3⟩ := q1.shrink hNb 0 (Nat.zero_le _) (fun x hx => by simp at hx)
+    have e0 : shrinkBuf { ({ P with snd_buf := b } : Kcp) with snd_buf := ({ P with snd_buf := b } : Kcp).snd_buf.drop 0 } =
+        shrinkBuf (parseAck P fr.sn) := by rw [eb]; rfl
+    rw [e0] at s1 s2 s3
+    obtain ⟨b2, eb2, mb2⟩ := parseFastack_rel fr.sn (shrinkBuf (parseAck P fr.sn)) fr.sn fr.ts
+    rw [eb2]
+    refine ⟨s1.mark mb2 (hack hA), ?_, ?_, hpr.1, hpr.2⟩
+    · have hs1 : SndShape P { P with snd_buf := b } := ⟨P.rmt_wnd, b, P.snd_una, P.probe, rfl⟩
+      have hs2 : SndShape (shrinkBuf (parseAck P fr.sn)) { shrinkBuf (parseAck P fr.sn) with snd_buf := b2 } :=
+        ⟨_, b2, _, _, rfl⟩
+      exact ((hshape0.trans hs1).trans s3).trans hs2
+    · show _ ≤ o base (shrinkBuf (parseAck P fr.sn)).snd_una
+      have : o base P.snd_una ≤ o base (shrinkBuf (parseAck P fr.sn)).snd_una := s2
+      omega
+  · rw [if_neg hA]
+    split
+    · exact ⟨⟨p1.con, p1.tag, p1.akd, p1.rel⟩, hshape0.trans ⟨P.rmt_wnd, P.snd_buf, P.snd_una, _, rfl⟩, p2, hpr.1, hpr.2⟩
+    · exact ⟨p1, hshape0, p2, hpr.1, hpr.2⟩
+
+/-- **a whole datagram of arbitrary genuine frames from the receiver** -/
+theorem inFrs_snd_gen (base conv : U32) (hasP : U32 → Prop) (frs : List Frm) : ∀ (st : InLoop),
+    SndOk base conv hasP st.k → o base st.k.snd_nxt < 2 ^ 31 → st.panic = false →
+    (∀ fr ∈ frs, (fr.cmd.toNat = IKCP_CMD_ACK ∨ fr.cmd.toNat = IKCP_CMD_WASK ∨ fr.cmd.toNat = IKCP_CMD_WINS) ∧
+      o base fr.una < 2 ^ 31 ∧ (∀ sn, o base sn < o base fr.una → hasP sn) ∧
+      (fr.cmd.toNat = IKCP_CMD_ACK → hasP fr.sn)) →
+    SndOk base conv hasP (inFrs true frs st).k ∧ SndShape st.k (inFrs true frs st).k ∧
+    o base st.k.snd_una ≤ o base (inFrs true frs st).k.snd_una ∧
+    (inFrs true frs st).panic = false ∧ (inFrs true frs st).ret = st.ret := by
+  induction frs with
+  | nil => intro st h _ hp _; exact ⟨h, SndShape.refl _, Nat.le_refl _, hp, rfl⟩
+  | cons fr rest ih =>
+    intro st h hN hp hall
+    obtain ⟨c1, c2, c3, c4⟩ := hall fr (List.mem_cons_self ..)
+    obtain ⟨a1, a2, a3, a4, a5⟩ := inFr_snd_gen base conv hasP st fr h hN c1 c2 c3 c4
+    have hN' : o base (inFr true st fr).k.snd_nxt < 2 ^ 31 := by
+      obtain ⟨r, sb, su, pr, e⟩ := a2
+      rw [e]; exact hN
+    unfold inFrs
+    rw [if_neg (by rw [a4, hp]; simp)]
+    obtain ⟨b1, b2, b3, b4, b5⟩ := ih (inFr true st fr) a1 hN' (by rw [a4]; exact hp)
+      (fun x hx => hall x (List.mem_cons_of_mem _ hx))
+    exact ⟨b1, a2.trans b2, Nat.le_trans a3 b3, b4, b5.trans a5⟩
+
 end KcpVerif.SysC
